@@ -296,6 +296,16 @@ def run(ctx, progs):
                     cb, ct = closure_ret(prog, eff, env["c"])
                     ok = ct is not None and match(AGG("Result", "Ok", P(3)), ct, {})
                 detail = f"returns `{tstr(others[0])}` / false"
+            if not ok and len(rts) == 1:
+                # .. written `try_access(..).is_ok_and(|count| count == len)`: true exactly when Ok and the predicate of the payload holds
+                env = {}
+                if match(C("Result::is_ok_and", C("GuestMemory::try_access", P(1), P(3), P(2), CLO("c")), CLO("p")), rts[0][1], env):
+                    pb_, pt_ = closure_ret(prog, eff, env["p"])
+                    lifted = eff.in_parent(pb_, pt_)[1] if pb_ is not None and pt_ is not None else None
+                    cb, ct = closure_ret(prog, eff, env["c"])
+                    ok = lifted is not None and match(BIN("Eq", OKP(C("GuestMemory::try_access", P(1), P(3), P(2), CLO("c2"))), P(3)), lifted, {}) and \
+                        ct is not None and match(AGG("Result", "Ok", P(3)), ct, {})
+                    detail = f"returns try_access(..).is_ok_and(|count| {tstr(lifted)[:80] if lifted is not None else '?'})"
             if not ok:
                 # the same predicate written `matches!(try_access(..), Ok(count) if count == len)`: literal true / false returns, decided
                 # by the facts on the way to each
